@@ -158,6 +158,9 @@ class MonteCarloEvaluator(Evaluator):
     def regenerate_samples(self, formula):
         """generates raw samples if none is present"""
         if not self.raw_samples.size:
+            # results buffered for an earlier (empty) sample set do not describe the new one
+            for strategy in [key for key in self.values if key != lit.MC_CUSTOM]:
+                self.values.pop(strategy)
             self.raw_samples = self.__compute_samples(formula)
 
     def clear(self):
